@@ -86,7 +86,7 @@ CHECKS = {
          "0..5 generated images of random pixel sizes are placed on 1..3 units of docx, pptx, xlsx, odt, odp, ods, odg, epub, pdf, rtf using relative/parent-relative/absolute/dot reference forms, display size equal to or "
          "different from the pixel size, permuted part numbering, wrapped RTF hex; iterate_images() must return exactly those images bit-exact, typed, sized, numbered 1..n, on the right unit, and unit views must be "
          "consistent with the document view (also checked on every fixture).",
-         "Shared media, external and missing images are not generated; per-slide/page numbering (pptx, pdf) and ODF frame-size reporting are listed known findings (pinned by the suite).", "DESIGN.md §4 C14"),
+         "External (http) images are not generated; shared media (odp) and frames whose picture part is missing (odt, odp, odg; xlsx dangling relationship) are; per-slide/page numbering (pptx, pdf) and ODF frame-size reporting are listed known findings (pinned by the suite).", "DESIGN.md §4 C14"),
  "C05": ("exploration", "Hypothesis: extractor results of generated documents/spreadsheets/image documents + type-directed instances of every registered dataclass (marker vocabulary); JSON round-trip / binary-null / CLI-equality oracle",
          "Results and units from generated documents of all formats, typed spreadsheets (incl. duration/error cells and marker-word cells), image-bearing documents and every fixture, plus thousands of instances built from "
          "the type hints of each registered dataclass, must be json.dumps-able, restore to the same type with identical to_json / text / units / tables / image bytes, turn exactly the binary leaves into null without binary, "
